@@ -12,6 +12,8 @@ import (
 	"os"
 	"strings"
 
+	index "github.com/blevesearch/bleve_index_api"
+
 	"github.com/RoaringBitmap/roaring/v2"
 	segment "github.com/blevesearch/scorch_segment_api/v2"
 	zap "github.com/blevesearch/zapx/v16"
@@ -173,7 +175,17 @@ func lifecycle(r *RunCtx, parts MergeParts, wantSyn, wantVec bool) {
 	abortable := c.Choose(3, "cfg.aborts") == 0
 
 	build := func() {
-		spec := genBatch(c, w.Cfg, w.genBatchSize(), w.Cfg.IDSpace)
+		var spec *BatchSpec
+		if wantVec && c.Prob(1, 30, "life.vecboundary") {
+			// exactly 999 / 1000 / 1001 / 1003 / 2000 vectors in one field: the
+			// boundaries of the index-class decision (flat below 1000, clustered
+			// from 1000) and of any batching by the thousand
+			n := []int{999, 1000, 1001, 1003, 2000}[c.Choose(5, "life.vecboundaryN")]
+			spec = genVectorBoundaryBatch(c, w.Cfg, n)
+			r.count("probe.vec.boundary-batch")
+		} else {
+			spec = genBatch(c, w.Cfg, w.genBatchSize(), w.Cfg.IDSpace)
+		}
 		h := w.Build(spec, nil)
 		h.Canon = w.extract(h.Seg, "built segment "+h.Name)
 		r.ev("build %s: %s", h.Name, spec.summary())
@@ -340,6 +352,21 @@ func (w *World) roundtripOne(h *SegH) {
 		r.fail("C04.writeto", "WriteTo", "WriteTo returned %d, wrote %d bytes", nw, buf.Len())
 	}
 	p := r.path("rt")
+	if r.ch.Prob(1, 6, "rt.stale") && buf.Len() > 1 {
+		// history: the path holds an earlier, shorter attempt (a truncated image or
+		// unrelated shorter junk); persisting over it must give the same file
+		k := r.ch.Choose(buf.Len()-1, "rt.stalelen")
+		stale := append([]byte(nil), buf.Bytes()[:k]...)
+		if r.ch.Bool("rt.stalejunk") {
+			for i := range stale {
+				stale[i] = byte(i * 131)
+			}
+		}
+		if err := os.WriteFile(p, stale, 0o600); err != nil {
+			r.fail("harness", "roundtrip", "%v", err)
+		}
+		r.count("probe.persist.over-earlier-shorter-attempt")
+	}
 	if err := sb.Persist(p); err != nil {
 		r.fail("C04.persist", "Persist", "Persist failed without a fault: %v", err)
 	}
@@ -369,4 +396,24 @@ func (w *World) roundtripOne(h *SegH) {
 		r.fail("C04.same", "Open", "in-memory vs re-opened: %s", s)
 	}
 	r.count("op.roundtrip")
+}
+
+// genVectorBoundaryBatch: n documents, each with exactly one vector in the
+// first vector field and nothing else but _id.
+func genVectorBoundaryBatch(c *Chooser, g *GenCfg, n int) *BatchSpec {
+	p := &g.VecFields[0]
+	b := &BatchSpec{}
+	for i := 0; i < n; i++ {
+		id := idString(100000 + i)
+		d := DocSpec{ID: id}
+		d.Fields = append(d.Fields, FieldSpec{Name: "_id", Kind: 't', Opts: index.IndexField | index.StoreField, Typ: 't',
+			Value: []byte(id), Len: 1, Toks: []TokSpec{{Term: id, Freq: 1}}})
+		vec := make([]float32, p.Dims)
+		for j := range vec {
+			vec[j] = float32((i*(j+3))%11) - 5
+		}
+		d.Fields = append(d.Fields, FieldSpec{Name: p.Name, Kind: 'v', Opts: p.Opts, Typ: 'v', Vec: vec, Dims: p.Dims, Sim: p.Sim, Opt: p.Opt})
+		b.Docs = append(b.Docs, d)
+	}
+	return b
 }
